@@ -9,10 +9,10 @@ import math
 import vlib
 from checks import numcommon as nc
 
-PROOF_MODULES = ["Num/NumC29.vo", "Num/NumC29F.vo", "Num/NumC29P.vo", "Num/NumC29O.vo"]
+PROOF_MODULES = ["Num/NumC29.vo", "Num/NumC29F.vo", "Num/NumC29P.vo", "Num/NumC29O.vo", "Num/NumC05U.vo"]
 OBLIGATIONS = [
     "C29/P_Lt_correct.v", "C29/P_Le_correct.v", "C29/P_Le_not_Lt.v", "C29/P_Ge_Le.v", "C29/P_Gt_Lt.v",
-    "C29/P_Eq_sym.v", "C29/P_Ne_negb_Eq.v", "C29/P_Lt_strict_order.v", "C29/P_Le_total_preorder.v", "C29/P_nonvacuous.v",
+    "C29/P_Eq_sym.v", "C29/P_Ne_negb_Eq.v", "C29/P_Lt_strict_order.v", "C29/P_Le_total_preorder.v", "C29/P_Eq_decides_value.v", "C29/P_nonvacuous.v",
 ]
 RELS = ["lt", "le", "gt", "ge", "eq", "ne"]
 TAGS = ("order", "dual")
